@@ -3,7 +3,7 @@
 From Coq Require Import Reals Lra ZArith Bool List.
 From Flocq Require Import Core.Raux.
 From SC Require Import Num Vec3 VecR Kernel KernelProofs Grid Contact ContactProofsA.
-From SC Require ContactTie.
+From SC Require ContactTie ContactTieR.
 Import ListNotations.
 Local Open Scope R_scope.
 
@@ -106,3 +106,20 @@ Proof. exact concrete_interaction. Qed.
 Theorem narrow_phase_model_is_what_the_source_says : ContactTie.narrow_phase_tie.
 Proof. exact ContactTie.narrow_phase_model_is_what_the_source_says. Qed.
 Print Assumptions narrow_phase_model_is_what_the_source_says.
+
+(* WHAT THE REGENERATED CODE DOES: the two statements that carry the property, about the translated repulsion block of resolve_contact
+   itself (Narrow_gen.interaction_gen over R; transferred through the equality above): the four forces it distributes sum to zero,
+   and it applies none when the squared distance reaches the largest squared cut-off. *)
+Theorem regenerated_repulsion_adds_no_net_force :
+  forall (cut_adh cut_rep : R) (p a b c fnormal : vR) (area rep : R) (t1 t2 : nat) (fn fa fb fc : vR), nondegenerate a b c ->
+    Narrow_gen.interaction_gen NumR (cut2_max NumR cut_adh cut_rep) p a b c fnormal area rep t1 t2 = Some (fn, fa, fb, fc) ->
+    fn +v fa +v fb +v fc = mkv 0 0 0.
+Proof. exact ContactTieR.generated_repulsion_net_zero. Qed.
+Print Assumptions regenerated_repulsion_adds_no_net_force.
+
+Theorem regenerated_repulsion_is_short_ranged :
+  forall (cut_adh cut_rep : R) (p a b c fnormal : vR) (area rep : R) (t1 t2 : nat),
+    cut2_max NumR cut_adh cut_rep <= k_dist (kernel NumR p a b c) ->
+    Narrow_gen.interaction_gen NumR (cut2_max NumR cut_adh cut_rep) p a b c fnormal area rep t1 t2 = None.
+Proof. exact ContactTieR.generated_repulsion_short_ranged. Qed.
+Print Assumptions regenerated_repulsion_is_short_ranged.
